@@ -159,6 +159,11 @@ class Interp:
             raise Undecided("step budget exhausted")
         k = n["k"]
         if k == "Lit":
+            if n.get("lk") == "float":
+                try:
+                    return float(str(n["v"]).rstrip("f3264_"))
+                except ValueError:
+                    raise Undecided("float literal %r" % n["v"])
             return n["v"]
         if k == "Path":
             rk = n.get("rk")
@@ -171,8 +176,16 @@ class Interp:
             if rk in ("Const", "AssocConst", "Static"):
                 return Opaque(n["res"])
             return Opaque(n.get("res", "path"))
-        if k in ("Ref", "Cast"):
+        if k == "Ref":
             return self.ev(n["e"], env)
+        if k == "Cast":
+            v = self.ev(n["e"], env)
+            ty = str(n.get("ty", ""))
+            if isinstance(v, float) and ty in ("i64", "u64", "usize", "i32", "u32", "isize", "u8", "i8", "u16", "i16"):
+                return int(v)
+            if isinstance(v, int) and not isinstance(v, bool) and ty in ("f64", "f32"):
+                return float(v)
+            return v
         if k == "Un":
             if n["op"] == "*":
                 return self.ev(n["e"], env)
@@ -195,9 +208,13 @@ class Interp:
             if isinstance(a, Opaque) or isinstance(b, Opaque):
                 raise Undecided("binary %s on opaque operand in %s" % (op, render(n)))
             try:
+                import math
                 return {"==": lambda: a == b, "!=": lambda: a != b, "<": lambda: a < b, "<=": lambda: a <= b, ">": lambda: a > b,
-                        ">=": lambda: a >= b, "+": lambda: a + b, "-": lambda: a - b, "*": lambda: a * b}[op]()
-            except (KeyError, TypeError):
+                        ">=": lambda: a >= b, "+": lambda: a + b, "-": lambda: a - b, "*": lambda: a * b,
+                        "/": lambda: (a / b) if isinstance(a, float) or isinstance(b, float) else int(a / b),
+                        "%": lambda: math.fmod(a, b) if isinstance(a, float) or isinstance(b, float) else int(math.fmod(a, b)),
+                        "^": lambda: a ^ b, "&": lambda: a & b, "|": lambda: a | b}[op]()
+            except (KeyError, TypeError, ZeroDivisionError, ValueError):
                 raise Undecided("binary %s" % op)
         if k == "Tup":
             return tuple(self.ev(e, env) for e in n["es"])
@@ -311,6 +328,14 @@ class Interp:
             return recv
         if m in ("to_string", "as_str", "to_lowercase_ascii") and not n["args"] and isinstance(recv, (str, int)) and not isinstance(recv, bool):
             return str(recv)
+        if isinstance(recv, str) and not n["args"] and m in ("to_lowercase", "to_ascii_lowercase", "to_uppercase", "to_ascii_uppercase", "trim", "is_empty", "len"):
+            return {"to_lowercase": recv.lower, "to_ascii_lowercase": recv.lower, "to_uppercase": recv.upper, "to_ascii_uppercase": recv.upper,
+                    "trim": recv.strip, "is_empty": lambda: recv == "", "len": lambda: len(recv.encode())}[m]()
+        if isinstance(recv, str) and len(n["args"]) == 1 and m in ("starts_with", "ends_with", "contains", "eq_ignore_ascii_case"):
+            a = self.ev(n["args"][0], env)
+            if isinstance(a, str):
+                return {"starts_with": recv.startswith, "ends_with": recv.endswith, "contains": lambda x: x in recv,
+                        "eq_ignore_ascii_case": lambda x: x.lower() == recv.lower()}[m](a)
         if m in ("is_some", "is_none") and isinstance(recv, V) and not n["args"]:
             return (recv.name == "Option::Some") == (m == "is_some")
         if m in ("is_ok", "is_err") and isinstance(recv, V) and not n["args"]:
